@@ -29,7 +29,7 @@ func genC06(t *rapid.T) *C06Case {
 	c := &C06Case{}
 	c.Goroutines = rapid.SampledFrom([]int{2, 4, 8, 16}).Draw(t, "g")
 	c.PerG = rapid.IntRange(5, 40).Draw(t, "perg")
-	c.Builders = rapid.IntRange(0, 2).Draw(t, "builders")
+	c.Builders = rapid.IntRange(0, 3).Draw(t, "builders")
 	c.Procs = rapid.SampledFrom([]int{2, 4, 16}).Draw(t, "procs")
 	lines := []string{"SecRuleEngine On", "SecRequestBodyAccess On", "SecAuditEngine On", "SecAuditLogParts ABHKZ", "SecAuditLogFormat JSON", "SecAuditLogType Serial",
 		"SecAuditLog " + tmpPlaceholder + "/c06-audit.log"}
@@ -85,8 +85,11 @@ func genC06(t *rapid.T) *C06Case {
 	return c
 }
 
+var caseSeq int64
+
 func checkC06(c *C06Case) Result {
 	res := Result{}
+	caseSeq++
 	// record the case before running it: a data race aborts the whole process (halt_on_error)
 	if dir := os.Getenv("VERIF_FAILDIR"); dir != "" {
 		_ = os.MkdirAll(dir, 0o755)
@@ -136,18 +139,25 @@ func checkC06(c *C06Case) Result {
 	}
 	var wg sync.WaitGroup
 	stop := make(chan struct{})
+	loadVocab()
 	for b := 0; b < c.Builders; b++ {
 		wg.Add(1)
-		go func() {
+		go func(b int) {
 			defer wg.Done()
-			for {
+			for it := 0; ; it++ {
 				select {
 				case <-stop:
 					return
 				default:
 				}
+				// every build adds a rule with a transformation chain nobody has used yet, so the
+				// global chain-id table and the pattern cache are written while other WAFs are in use
+				tr := vocabData.transformations
+				n := len(tr)
+				x := (b*7919 + it*104729 + int(caseSeq)*31) % (n * n * n)
+				extra := fmt.Sprintf("\nSecRule ARGS \"@rx b%dx%d\" \"id:9999,phase:2,pass,t:%s,t:%s,t:%s\"", b, it, tr[x%n], tr[(x/n)%n], tr[(x/n/n)%n])
 				if f := guard("concurrent NewWAF", func() {
-					w, err := newWAF(conf)
+					w, err := newWAF(conf + extra)
 					if err != nil {
 						panic(fmt.Sprintf("NewWAF failed while other WAFs were in use: %v", err))
 					}
@@ -157,7 +167,7 @@ func checkC06(c *C06Case) Result {
 					return
 				}
 			}
-		}()
+		}(b)
 	}
 	var txwg sync.WaitGroup
 	for g := 0; g < c.Goroutines; g++ {
